@@ -83,6 +83,7 @@ func calleeName(fn *ssa.Function) string {
 func (fr *Frame) callFunction(b *ssa.BasicBlock, st *State, callee *ssa.Function, args []Val, resT types.Type, pos token.Pos, ins ssa.CallInstruction) Val {
 	fc := fr.fc
 	name := calleeName(callee)
+	fr.callAsserts(b, st, name, args, pos)
 	// 1. native models
 	if v, ok := fr.nativeCall(b, st, name, callee, args, resT, pos); ok {
 		return v
@@ -129,7 +130,7 @@ func (e *Engine) inlinable(fn *ssa.Function) bool {
 func (fr *Frame) inlineCall(b *ssa.BasicBlock, st *State, callee *ssa.Function, args []Val, resT types.Type, pos token.Pos) Val {
 	fc := fr.fc
 	sub := &Frame{fc: fc, fn: callee, env: map[ssa.Value]Val{}, reach: map[int]string{}, exit: map[int]*State{}, edgeCnd: map[edgeKey]string{},
-		inlined: true, prefix: fr.prefix + fr.src(pos, callee.Name()) + "/", depth: fr.depth + 1, propsList: fr.propsList, contract: nil, pre: st.clone()}
+		inlined: true, parent: fr, parentBlock: b, prefix: fr.prefix + fr.src(pos, callee.Name()) + "/", depth: fr.depth + 1, propsList: fr.propsList, contract: nil, pre: st.clone()}
 	if fr.contract != nil && !fr.contract.NoPanic {
 		sub.contract = &Contract{NoPanic: false, LoopInv: map[int][]Clause{}}
 	}
@@ -452,6 +453,17 @@ func (fr *Frame) modTargets(m ModLoc, env *SpecEnv) []modTarget {
 				}
 			}
 			return out
+		case "onlyfresh":
+			// onlyfresh("substr"): in heaps whose name contains substr only objects allocated later are written
+			if id, ok := e.Args[0].(*EStr); ok {
+				var out []modTarget
+				for name := range fc.varSort {
+					if strings.Contains(name, id.V) && name != hAlloc {
+						out = append(out, modTarget{"none", name, fc.varSort[name], ""})
+					}
+				}
+				return out
+			}
 		case "heap":
 			// heap(name): whole heap variable by (suffix) name
 			if id, ok := e.Args[0].(*EStr); ok {
@@ -613,6 +625,16 @@ func (fr *Frame) execInvoke(b *ssa.BasicBlock, st *State, ins ssa.CallInstructio
 }
 
 func (e *Engine) resolveType(pkg *types.Package, s string) types.Type {
+	if strings.HasPrefix(s, "[]") {
+		el := e.resolveType(pkg, s[2:])
+		if el == nil {
+			return nil
+		}
+		return types.NewSlice(el)
+	}
+	if s == "any" {
+		return types.NewInterfaceType(nil, nil).Complete()
+	}
 	ptr := 0
 	for strings.HasPrefix(s, "*") {
 		ptr++
@@ -788,6 +810,7 @@ func (fr *Frame) execBuiltin(b *ssa.BasicBlock, st *State, bi *ssa.Builtin, args
 		k := fr.scalar(args[1])
 		// delete on nil map is a no-op
 		cur := fc.get(st, heapMapP(mt))
+		fr.checkLoopWrite(heapMapP(mt), m)
 		fc.logWrite(heapMapP(mt), m)
 		fc.setDef(st, "true", heapMapP(mt), sIte(sEq(m, "0"), cur, sStore(cur, m, sStore(sSel(cur, m), k, "false"))))
 		return Val{IsAg: true, Typ: resT}
@@ -817,7 +840,7 @@ func (fr *Frame) execBuiltin(b *ssa.BasicBlock, st *State, bi *ssa.Builtin, args
 func (fr *Frame) cardFacts(row string) {
 	fc := fr.fc
 	k := "card:" + row
-	if fc.declSet[k] {
+	if fc.declSet[k] || reBoundVar.MatchString(row) {
 		return
 	}
 	fc.declSet[k] = true
@@ -897,6 +920,7 @@ func (fr *Frame) execAppend(b *ssa.BasicBlock, st *State, args []Val, resT types
 			}
 			fr.assume(b, sEq(sApp("bseq", newRow, offS, newLen), sApp("u_bcat", sApp("bseq", oldRowS, offS, lenS), tseq)))
 		}
+		fr.checkLoopWrite(h, arrR)
 		fc.logWrite(h, freshArr)
 		fc.logWrite(h, arrS)
 		fc.setDef(st, "true", h, sStore(heapBefore, arrR, newRow))
@@ -940,8 +964,40 @@ func (fr *Frame) execCopy(b *ssa.BasicBlock, st *State, args []Val, resT types.T
 	}
 	facts = append(facts, fmt.Sprintf("(forall ((j Int)) (! (=> (or (< j %s) (>= j (+ %s %s))) (= (select %s j) (select %s j))) :pattern ((select %s j))))", offD, offD, n, newRow, oldRow, newRow))
 	fr.assume(b, sAnd(facts...))
+	fr.checkLoopWrite(h, arrD)
 	fc.logWrite(h, arrD)
 	// copying into a nil/empty slice changes nothing
 	fc.setDef(st, "true", h, sIte(sEq(n, "0"), heapBefore, sStore(heapBefore, arrD, newRow)))
 	return Val{S: n, Typ: resT}
+}
+
+// callAsserts evaluates the contract's `assert at <callee>` clauses at a matching call site ($0, $1, ... are the arguments)
+func (fr *Frame) callAsserts(b *ssa.BasicBlock, st *State, name string, args []Val, pos token.Pos) {
+	if fr.contract == nil || fr.inlined {
+		return
+	}
+	for _, ca := range fr.contract.Asserts {
+		if !strings.Contains(name, ca.Callee) {
+			continue
+		}
+		if fr.callCount == nil {
+			fr.callCount = map[string]int{}
+		}
+		k := ca.Callee + "/" + ca.Cl.Label
+		n := fr.callCount[k]
+		fr.callCount[k]++
+		if ca.Nth >= 0 && ca.Nth != n {
+			continue
+		}
+		vars := map[string]Val{}
+		for kk, v := range fr.params {
+			vars[kk] = v
+		}
+		for i, a := range args {
+			vars[fmt.Sprintf("$%d", i)] = a
+		}
+		env := &SpecEnv{fr: fr, vars: vars, now: st, old: fr.pre, pkg: fr.fn.Pkg.Pkg}
+		t, sks := fr.evalGoal(ca.Cl.E, env)
+		fr.fc.obligeSplit("assert", "at:"+ca.Callee+"."+ca.Cl.Label, fr.reach[b.Index], t, pos, fr.propsFor(ca.Cl.Props), true, sks)
+	}
 }
